@@ -135,9 +135,9 @@ def main():
                 if not okg:
                     notes.append("translator/Gen: " + msg)
             import gen
-            if pid in gen.PY2COQ_PIDS:
-                okg, msg, ginfo = gen.regen_py2coq()
-                gen_info.update(ginfo)
+            for which in gen.translators_for(pid):
+                okg, msg, ginfo = gen.regen(which)
+                gen_info[which] = ginfo
                 if not okg:
                     notes.append("translator/Gen: " + msg)
         except Exception:
@@ -219,8 +219,8 @@ def main():
     if "coqchk_tail" in props:
         cov["coqchk"] = props["coqchk_tail"]
     if gen_info:
-        cov["translated_from_source"] = dict(gen_info, translator="translate/py2coq.py -> coq/Gen/PyGen.v; Gen = Model lemmas in coq/Equiv/Equiv.v re-checked")
-        cov["trusted_base"] = TRUSTED_BASE + ["translate/py2coq.py (Python-ast to Gallina translator for the functions named in coq/Equiv/Equiv.v; fail-closed outside its subset)"]
+        cov["translated_from_source"] = dict(gen_info, note="definitions regenerated from /repo's working tree by translate/py2coq*.py; Gen = Model lemmas (coq/Equiv/Equiv*.v) re-checked before the Props file")
+        cov["trusted_base"] = TRUSTED_BASE + ["translate/py2coq.py, translate/py2coq_server.py (Python-ast to Gallina translators for the functions named in coq/Equiv/Equiv*.v, with their attribute/idiom tables and coq/Equiv/ServerGlue.v; fail-closed outside the subset)"]
     if res is not None:
         cov.update({
             "evaluations": res.evaluations, "distinct_nontrivial": len(res.nontrivial), "rule": res.rule,
